@@ -191,8 +191,9 @@ package keeper
 //@   before[C02.asfo.last] prefix.Store).Set requires len(stakers.Stakers) >= 1 && stakers.Stakers[len(stakers.Stakers) - 1] == stakerID
 //@   before[C02.asfo.once] prefix.Store).Set requires forall(i, 0, len(stakers.Stakers) - 1, stakers.Stakers[i] != stakerID)
 //@ loop #1
-//@   invariant state(ctx) == old(state(ctx)) && -1 <= rangeindex && rangeindex < len(stakers.Stakers)
-//@   invariant[C02.asfo.once] forall(i, 0, rangeindex + 1, stakers.Stakers[i] != stakerID)
+// (phi1: the loop's first carried value whatever it is called - the index of the last entry looked at)
+//@   invariant state(ctx) == old(state(ctx)) && -1 <= phi1 && phi1 < len(stakers.Stakers)
+//@   invariant[C02.asfo.once] forall(i, 0, phi1 + 1, stakers.Stakers[i] != stakerID)
 
 //@ func (*Keeper).DeleteStakerForOperator
 //@   modifies get(ctx, "delegation", slKey(operator, assetID))
